@@ -155,6 +155,8 @@ def tlc_mc(module, cfg, workers=8, timeout=1500, env=None, simulate=None, covera
     md = _metadir(cfg.replace(".cfg", ""))
     cmd = ["timeout", str(timeout), "tlc", "-workers", str(workers), "-metadir", md, "-cleanup", "-noGenerateSpecTE",
            "-config", os.path.join(SPEC, cfg)]
+    if not simulate:
+        cmd += ["-seed", str(seed())]
     if coverage and not simulate:
         cmd += ["-coverage", "1"]
     if simulate:
@@ -190,7 +192,7 @@ def tlc_gen(module, cfg, out_path, env=None, timeout=900):
         e.update(env)
     if os.path.exists(out_path):
         os.unlink(out_path)
-    cmd = ["timeout", str(timeout), "tlc", "-workers", "1", "-metadir", md, "-cleanup", "-noGenerateSpecTE",
+    cmd = ["timeout", str(timeout), "tlc", "-seed", str(seed()), "-workers", "1", "-metadir", md, "-cleanup", "-noGenerateSpecTE",
            "-config", os.path.join(SPEC, cfg), os.path.join(SPEC, module + ".tla")]
     rc, out = run(cmd, env=_tlc_env(e), check=False, cwd=SPEC)
     shutil.rmtree(md, ignore_errors=True)
@@ -208,6 +210,7 @@ def gen_cached(module, cfg, name, env=None):
     h.update(json.dumps(env or {}, sort_keys=True).encode())
     d = os.path.join(WORK, "gen")
     os.makedirs(d, exist_ok=True)
+    h.update(str(seed()).encode())      # generators may draw with RandomElement under -seed
     path = os.path.join(d, "%s_%s.ndjson" % (name, h.hexdigest()[:16]))
     if not os.path.exists(path):
         tmp = path + ".tmp%d" % os.getpid()
